@@ -278,7 +278,7 @@ var injHist *ref.History
 func injHistory() *ref.History {
 	if injHist == nil {
 		g := &Gen{Cfg: ref.Cfg{Checksum: ref.ChecksumCRC32, RowsV2: true, TableID6: true, ServerID: 5, ServerVer: "5.7.30-log"}}
-		injHist = g.Build([]string{UTxXID, UTx2, UDDL, UTxCommit})
+		injHist = g.Build([]string{UTxXID, UTx2, UDDL, UTxSave, UTxCommit})
 	}
 	return injHist
 }
@@ -627,6 +627,13 @@ func RunMarshal(r *chk.Run) {
 			for kind := 0; kind < 3; kind++ {
 				inputs = append(inputs, HistInput{Units: []string{"pattern"}, Cfg: cfg, Pattern: &Pattern{Kind: kind, Wide: v}})
 			}
+		}
+	}
+	// statements the library does not classify, inside and between transactions:
+	// whatever is delivered must carry the name of its own kind
+	for _, in := range UnknownStatementInputs(cfg) {
+		if in.Insert.Slot == 2 || in.Insert.Slot == 4 {
+			inputs = append(inputs, in)
 		}
 	}
 	var ntx int64
@@ -1581,4 +1588,155 @@ func ReplayHeaderBytes(input json.RawMessage) (bool, string) {
 		return false, "all 768 transactions are delivered as sent"
 	}
 	return true, why
+}
+
+// ---- every event type code the library does not interpret ---------------------------
+
+// UnkInput is the replay form of an unknown-type execution.
+type UnkInput struct {
+	Type   byte    `json:"type"`
+	Inside bool    `json:"inside"` // inside a transaction (between its rows events) / between two transactions
+	Cfg    ref.Cfg `json:"cfg"`
+}
+
+// interpreted lists the type codes the streamer has a case for.
+var interpretedTypes = map[byte]bool{ref.EvFormatDesc: true, ref.EvQuery: true, ref.EvRotate: true, ref.EvXID: true, ref.EvIntVar: true,
+	ref.EvRand: true, ref.EvPreviousGTIDs: true, ref.EvRowsQuery: true, ref.EvTableMap: true, ref.EvWriteRowsV1: true, ref.EvUpdateRowsV1: true,
+	ref.EvDeleteRowsV1: true, ref.EvWriteRowsV2: true, ref.EvUpdateRowsV2: true, ref.EvDeleteRowsV2: true, ref.EvGTID: true}
+
+func checkUnknownType(in UnkInput) string {
+	ta := TA(70)
+	g := &Gen{Cfg: in.Cfg}
+	ts := g.tick()
+	unk := &ref.AEvent{Kind: ref.AUnknown, TS: ts, TypeCode: in.Type, Body: []byte{1, 2, 3, 4, 5, 6, 7, 8, 9, 10, 11, 12, 13, 14, 15, 16, 17, 18, 19, 20, 21, 22, 23, 24, 25, 26}}
+	var evs []*ref.AEvent
+	if in.Inside {
+		evs = []*ref.AEvent{ref.Q(ts, "shop", "BEGIN"), ref.TM(ts, ta), ref.R(ts, ref.RowWrite, ta, ref.RowChange{After: rowA(1, "a", 1)}), unk,
+			ref.TM(ts, ta), ref.R(ts, ref.RowWrite, ta, ref.RowChange{After: rowA(2, "b", 2)}), ref.X(ts+1, 851),
+			ref.Q(ts+2, "shop", "DROP TABLE gone")}
+	} else {
+		evs = []*ref.AEvent{ref.Q(ts, "shop", "BEGIN"), ref.TM(ts, ta), ref.R(ts, ref.RowWrite, ta, ref.RowChange{After: rowA(1, "a", 1)}), ref.X(ts+1, 851), unk,
+			ref.Q(ts+2, "shop", "BEGIN"), ref.TM(ts+2, ta), ref.R(ts+2, ref.RowDelete, ta, ref.RowChange{Before: rowA(1, "a", 1)}), ref.Q(ts+3, "shop", "COMMIT")}
+	}
+	h := &ref.History{Cfg: in.Cfg, Files: []*ref.File{{Name: "mysql-bin.000001", Events: evs}}}
+	h.Layout()
+	start := ref.Position{File: "mysql-bin.000001", Pos: 4}
+	served, _ := h.Serve(start.File, 4)
+	exp, stop := ref.Expect(served, start)
+	if stop != nil {
+		return "generator error: " + stop.Why
+	}
+	out := Run(h, Opts{Start: start, ServerID: 3, LockStep: true})
+	if out.Hung {
+		return "HUNG"
+	}
+	if out.StreamPanic[0] != "" {
+		return "panic in Stream: " + firstLine(out.StreamPanic[0])
+	}
+	if out.StreamErr[0] != nil {
+		return "Stream failed on a well-formed binlog: " + clip(out.StreamErr[0].Error(), 200)
+	}
+	if d := hx.CompareAll(exp, out.Snaps()); d != "" {
+		return d
+	}
+	for i, d := range out.Deliveries {
+		ci := exp[i].CommitIndex
+		if d.Released < ci+1 {
+			return fmt.Sprintf("delivery %d happened when the master had released %d packets, before its commit event (packet %d) was sent", i, d.Released, ci)
+		}
+	}
+	return ""
+}
+
+// RunUnknownTypes: an event of every type code the streamer does not interpret
+// (0..255 without the 16 interpreted ones), placed inside a transaction and
+// between two transactions, must not alter the grouping.
+func RunUnknownTypes(r *chk.Run) {
+	var n int64
+	cfgs := []ref.Cfg{
+		{Checksum: ref.ChecksumCRC32, RowsV2: true, TableID6: true, ServerID: 5, ServerVer: "5.7.30-log"},
+		{Checksum: ref.ChecksumOff, RowsV2: false, TableID6: false, ServerID: 5, ServerVer: "5.5.62"},
+	}
+	for t := 0; t < 256; t++ {
+		if interpretedTypes[byte(t)] {
+			continue
+		}
+		for _, inside := range []bool{true, false} {
+			for _, cfg := range cfgs {
+				in := UnkInput{Type: byte(t), Inside: inside, Cfg: cfg}
+				n++
+				why := checkUnknownType(in)
+				if why == "HUNG" {
+					chk.Fatalf("unknown types: Stream did not return within 60 s")
+				}
+				if why != "" {
+					r.Report(chk.Violation{Key: "unknown-type-alters-grouping", What: fmt.Sprintf("event type %d inside=%v cfg=%s: %s", t, inside, CfgName(cfg), why),
+						Kind: "unktype", Replay: in, Recheck: func() string { return checkUnknownType(in) }})
+				}
+			}
+		}
+	}
+	r.Eval(n)
+	r.DistinctN(n)
+	r.Set("unknown_type_histories", n)
+}
+
+// ReplayUnknownType replays an unknown-type execution.
+func ReplayUnknownType(input json.RawMessage) (bool, string) {
+	var in UnkInput
+	if err := json.Unmarshal(input, &in); err != nil {
+		return false, err.Error()
+	}
+	why := checkUnknownType(in)
+	if why == "" {
+		return false, "the event is ignored: grouping and contents as the reference says"
+	}
+	return true, why
+}
+
+// ---- server versions in the format description --------------------------------------
+
+// RunServerVersions streams a history with a rotation (a second format
+// description), DDL and both commit forms under format descriptions of many
+// server versions; CRC32 only for checksum-aware servers (MySQL >= 5.6.1,
+// MariaDB >= 5.3). What the streamer does must not depend on the version text.
+func RunServerVersions(r *chk.Run) {
+	type sv struct {
+		ver string
+		crc bool
+	}
+	list := []sv{{"5.1.73-log", false}, {"5.5.62", false}, {"5.6.0", false}, {"5.5.68-MariaDB", true}, {"5.6.1", true}, {"5.6.10-log", true}, {"5.7.0", true},
+		{"5.7.44-log", true}, {"8.0.0", true}, {"8.0.21", true}, {"8.0.36-0ubuntu0.22.04.1", true}, {"8.4.0", true}, {"9.0.1", true},
+		{"10.0.13-MariaDB-log", true}, {"10.4.13-MariaDB-log", true}, {"10.11.6-MariaDB-1:10.11.6+maria~ubu2204-log", true}, {"11.5.2-MariaDB", true}}
+	var n int64
+	for _, v := range list {
+		algs := []byte{ref.ChecksumOff}
+		if v.crc {
+			algs = append(algs, ref.ChecksumCRC32)
+		}
+		for _, alg := range algs {
+			for _, v2 := range []bool{false, true} {
+				cfg := ref.Cfg{Checksum: alg, RowsV2: v2, TableID6: v2, ServerID: 5, ServerVer: v.ver}
+				for _, units := range [][]string{{UTxXID, URotate, UDDL, UTxCommit}, {UDDL, UTxCommit, URotate, UTxXID, UStmtOut}} {
+					in := HistInput{Units: units, Cfg: cfg, LockStep: true, Oracle: "fidelity"}
+					n++
+					if why, _, _ := checkGrouping(in); why != "" && why != "HUNG" {
+						r.Report(chk.Violation{Key: "server-version", What: fmt.Sprintf("server version %q units=%v cfg=%s: %s", v.ver, units, CfgName(cfg), why),
+							Kind: "history", Replay: in, Recheck: func() string { w, _, _ := checkGrouping(in); return w }})
+					}
+					// ... and the resume position after a lost connection (second attempt)
+					in2 := in
+					in2.CutAt = 7
+					n++
+					if why, _, _ := checkGrouping(in2); why != "" && why != "HUNG" {
+						r.Report(chk.Violation{Key: "server-version:resume", What: fmt.Sprintf("server version %q units=%v cfg=%s: %s", v.ver, units, CfgName(cfg), why),
+							Kind: "history", Replay: in2, Recheck: func() string { w, _, _ := checkGrouping(in2); return w }})
+					}
+				}
+			}
+		}
+	}
+	r.Eval(n)
+	r.DistinctN(n)
+	r.Set("server_version_histories", n)
 }
